@@ -361,11 +361,15 @@ func (d *driver) same(g, e Ev) bool {
 // Modes (combinable, e.g. "jitter+fill"):
 //   jitter  amounts are perturbed off the unit grid (seeded); the model's
 //           predictions do not apply then and drift is not counted
+//   ctorfail  no behaviours are read: failure points of the constructor (ctorfail.go)
 //   fill    a Commit(n) that does not directly follow a Claim of at least n is
 //           preceded by Claim(n), so that every committed byte carries its
 //           token (Claim does not change the buffer's state, the generated
 //           history stays a subsequence of what is executed)
 func Run(a tr.Args) error {
+	if a.Mode == "ctorfail" {
+		return runCtorFail(a)
+	}
 	w, err := tr.NewWriter(a.Out)
 	if err != nil {
 		return err
